@@ -114,10 +114,26 @@ def parsed_paths(prog: Program) -> List[Tuple[object, str, str, int]]:
                 if k.arg is None:
                     continue
                 v = resolve_locals(f.node, k.value)
-                paths = [y.args[0].value for y in ast.walk(v)
-                         if isinstance(y, ast.Call) and isinstance(y.func, ast.Attribute) and
-                         y.func.attr in ("find", "findtext", "iterfind", "findall") and y.args and
-                         isinstance(y.args[0], ast.Constant) and isinstance(y.args[0].value, str)]
+
+                def _paths(v):
+                    return [y.args[0].value for y in ast.walk(v)
+                            if isinstance(y, ast.Call) and isinstance(y.func, ast.Attribute) and
+                            y.func.attr in ("find", "findtext", "iterfind", "findall") and
+                            y.args and isinstance(y.args[0], ast.Constant) and
+                            isinstance(y.args[0].value, str)]
+
+                paths = _paths(v)
+                if not paths and isinstance(k.value, ast.Name):
+                    # a list filled by loops over the elements: the loops that add to it
+                    for lp in walk_no_nested(f.node):
+                        if isinstance(lp, (ast.For, ast.While)) and any(
+                                (isinstance(y, ast.Call) and isinstance(y.func, ast.Attribute) and
+                                 y.func.attr in ("append", "extend", "add", "insert") and
+                                 isinstance(y.func.value, ast.Name) and
+                                 y.func.value.id == k.value.id) or
+                                (isinstance(y, ast.AugAssign) and isinstance(y.target, ast.Name) and
+                                 y.target.id == k.value.id) for y in ast.walk(lp)):
+                            paths += _paths(lp)
                 if len(paths) == 1:
                     out.append((f, k.arg, paths[0], k.value.lineno))
     return out
